@@ -274,6 +274,7 @@ Definition b_next (b : bstate) : bres unit :=
                else Some (code, length)) with
         | None => (b, Err)
         | Some (code, length) =>
+          if (code =? bcNegInt) && (length =? 15) then (b, Err) else       (* 0x3F is not a legal tag *)
           if (length =? 15) && negb length_read then (upd_cur b code true (b_len b), Ok tt) else
           match b_remaining b with
           | Ok rem =>
